@@ -3,6 +3,8 @@ import ProbLogProofs.Lemmas.SemFOGround
 import ProbLogProofs.Lemmas.SemFORename
 import ProbLogProofs.Lemmas.SemFOPerm
 import ProbLogProofs.Lemmas.SemFOVars
+import ProbLogProofs.Lemmas.SemFOBody
+import ProbLogProofs.Lemmas.SemRules
 import ProbLogProofs.Properties.C07
 /-!
 # C07 (first-order level) — the specification does not depend on the order of the statements
@@ -15,7 +17,7 @@ unchanged.
 -/
 namespace ProbLogProofs.C07FO
 open ProbLogModel ProbLogModel.SemFO ProbLogProofs.SemFOGround ProbLogProofs.SemFORename ProbLogProofs.SemFOPerm
-open ProbLogProofs.SemFOVars
+open ProbLogProofs.SemFOVars ProbLogProofs.SemFOBody ProbLogProofs.SemRules
 
 /-- `Sem.run` does not depend on the names of the choices: an injective renaming `σ` of the choice ids (in the rules
     and in the groups) that respects the bound `nchoices` leaves every component of the result unchanged. -/
@@ -83,6 +85,47 @@ theorem C07FO_var_rename (P : FOProgram) {l₁ l₂ : List Stmt} {s : Stmt} (hs 
   rw [e]
   rfl
 
+/-- **Permuting the literals inside the body of one statement** (constants pairwise distinct): the Herbrand
+    instantiation changes only by the order of the atoms inside rule bodies and the order of the rules (`REqv`: the same
+    set of rules, each read up to the set of its positive / negative body atoms), a permutation of the groups and an
+    injective renaming `σ` of the choice ids (the order of first occurrence of the variables, hence the enumeration order
+    of the assignments, may change). -/
+theorem C07FO_body_perm (P : FOProgram) (hc : P.consts.Nodup) {l₁ l₂ : List Stmt} {s : Stmt}
+    (hs : P.stmts = l₁ ++ s :: l₂) {body' : List Lit} (hb : s.body.Perm body') :
+    ∃ σ : Nat → Nat, Function.Injective σ ∧ (∀ c, σ c < (ground P).nchoices ↔ c < (ground P).nchoices) ∧
+      REqv ((ground P).rules.map (renRule σ)) (ground { P with stmts := l₁ ++ withBody s body' :: l₂ }).rules ∧
+      ((ground P).groups.map (renGroup σ)).Perm (ground { P with stmts := l₁ ++ withBody s body' :: l₂ }).groups ∧
+      (ground { P with stmts := l₁ ++ withBody s body' :: l₂ }).natoms = (ground P).natoms ∧
+      (ground { P with stmts := l₁ ++ withBody s body' :: l₂ }).nchoices = (ground P).nchoices ∧
+      queryIds { P with stmts := l₁ ++ withBody s body' :: l₂ } = queryIds P ∧
+      evidenceIds { P with stmts := l₁ ++ withBody s body' :: l₂ } = evidenceIds P := by
+  have hb' : s.body.Perm (withBody s body').body := by rw [body_withBody s body' hb]; exact hb
+  obtain ⟨hn, σ, hinj, hfix, hr, hg⟩ :=
+    groundStmts_body P.consts hc (heads_withBody s body') (isProb_withBody s body') hb' l₁ l₂
+  rw [← hs] at hn hfix hr hg
+  refine ⟨σ, hinj, lt_iff_of_fix hinj hfix, ?_, hg, rfl, hn, rfl, rfl⟩
+  have := (hr.toRule (atomId P))
+  rw [List.map_map] at this
+  show REqv (((groundStmts P.consts 0 P.stmts).1.map (SRule.toRule (atomId P))).map (renRule σ))
+    ((groundStmts P.consts 0 (l₁ ++ withBody s body' :: l₂)).1.map (SRule.toRule (atomId P)))
+  rw [List.map_map]
+  exact this
+
+/-- **The specification value does not depend on the order of the literals in a body.** -/
+theorem C07FO_body_perm_run (P : FOProgram) (hc : P.consts.Nodup) {l₁ l₂ : List Stmt} {s : Stmt}
+    (hs : P.stmts = l₁ ++ s :: l₂) {body' : List Lit} (hb : s.body.Perm body') :
+    SemFO.run { P with stmts := l₁ ++ withBody s body' :: l₂ } = SemFO.run P := by
+  obtain ⟨σ, hinj, hbd, hr, hg, _, hn, hq, he⟩ := C07FO_body_perm P hc hs hb
+  unfold SemFO.run
+  rw [hq, he]
+  have e : ground { P with stmts := l₁ ++ withBody s body' :: l₂ } =
+      { { renProg σ (ground P) with rules := (ground { P with stmts := l₁ ++ withBody s body' :: l₂ }).rules } with
+        groups := (ground { P with stmts := l₁ ++ withBody s body' :: l₂ }).groups } := by
+    show Sem.Prog.mk _ _ _ _ = Sem.Prog.mk _ _ _ _
+    congr 1
+  rw [e, C07.C07_perm_groups_run _ hg, run_congr_rules (renProg σ (ground P)) hr]
+  exact C07FO_run_rename_choices hinj (ground P) hbd _ _
+
 /-! ### non-vacuity -/
 
 def exP : FOProgram :=
@@ -122,5 +165,14 @@ theorem swapXY_inj : Function.Injective swapXY := by
 example : exP.stmts = [exP.stmts[0]] ++ exP.stmts[1] :: [exP.stmts[2]] := rfl
 example : renStmt swapXY (.prule (1/2) ⟨"p", [.var "X"]⟩ [.pos ⟨"f", [.var "X"]⟩]) =
     .prule (1/2) ⟨"p", [.var "Y"]⟩ [.pos ⟨"f", [.var "Y"]⟩] := rfl
+
+-- body permutation: `q :- \+p(b), (p(Y) ; f(Y)).`
+def exBody' : List Lit := [.neg ⟨"p", [.const "b"]⟩, .or ⟨"p", [.var "Y"]⟩ ⟨"f", [.var "Y"]⟩]
+example : exP.consts.Nodup := by decide
+example : exP.stmts = [exP.stmts[0], exP.stmts[1]] ++ exP.stmts[2] :: [] := rfl
+example : (exP.stmts[2]).body.Perm exBody' := List.Perm.swap _ _ _
+example : withBody (exP.stmts[2]) exBody' = .rule ⟨"q", []⟩ exBody' := rfl
+example : (SemFO.run { exP with stmts := [exP.stmts[0], exP.stmts[1]] ++ withBody (exP.stmts[2]) exBody' :: [] }).num =
+    [3/20, 0, 3/10] := by decide +kernel
 
 end ProbLogProofs.C07FO
